@@ -46,6 +46,6 @@ for d in sorted(glob.glob(os.path.join(V, "seeded", "*"))):
         else:
             res.append("%s: missed" % c)
     det = "; ".join((x[:90] for r in oc.values() for x in r.get("detail", [])[:1]))
-    out.append("| %s | %s | %s | %s | %s |" % (os.path.basename(d), str(m.get("breaks", ""))[:110].replace("|", "/"),
-                                             str(m.get("needs", ""))[:110].replace("|", "/"), ("; ".join(res) or "n/a") + ((" — " + m["note"][:160]) if m.get("note") else ""), det.replace("|", "/")))
+    out.append("| %s | %s | %s | %s | %s |" % (os.path.basename(d), str(m.get("breaks") or m.get("summary") or "")[:110].replace("|", "/"),
+                                             str(m.get("needs") or m.get("trigger") or "")[:110].replace("|", "/"), ("; ".join(res) or "n/a") + ((" — " + m["note"][:160]) if m.get("note") else ""), det.replace("|", "/")))
 print("\n".join(out))
